@@ -39,6 +39,11 @@ type replayFile struct {
 	Sites     map[string]string `json:"sites,omitempty"`
 	Race      bool              `json:"race_build"`
 	Minimised bool              `json:"minimised,omitempty"`
+	// ProcFrom is the first run of the worker process that recorded the file. Prelude lists runs (generated from
+	// tier, seed and index like in a batch) that are executed in the same process before the recorded one: the
+	// way a violation that needs state the library keeps between runs (package-level variables) is replayed.
+	ProcFrom int   `json:"proc_from"`
+	Prelude  []int `json:"prelude,omitempty"`
 }
 
 var out = bufio.NewWriterSize(os.Stdout, 1<<16)
@@ -267,7 +272,7 @@ func main() {
 			perSig[v.Sig]++
 			file := ""
 			if *outDir != "" && perSig[v.Sig] <= *maxFiles {
-				rf := replayFile{Property: p.ID(), Tier: *tier, Seed: *seed, RunIndex: idx, SchedSeed: schedSeed, Race: simrt.RaceBuild}
+				rf := replayFile{Property: p.ID(), Tier: *tier, Seed: *seed, RunIndex: idx, SchedSeed: schedSeed, Race: simrt.RaceBuild, ProcFrom: *from}
 				rf.Plan, _ = json.Marshal(plan)
 				if o != nil {
 					rf.Tape = o.Tape
@@ -383,6 +388,13 @@ func doReplay(path string, showLog bool) int {
 		fmt.Fprintf(os.Stderr, "worker: replay file was recorded with a race build\n")
 	}
 	worlds.CheckSeed = rf.Seed
+	for _, idx := range rf.Prelude {
+		pl := p.Gen(worlds.NewRand(worlds.Mix(rf.Seed, idx, 1)), idx, rf.Tier)
+		p.Run(pl, worlds.Mix(rf.Seed, idx, 2), nil, false, false)
+	}
+	if len(rf.Prelude) > 0 && simrt.RaceBuild {
+		raceReport() // reports of the prelude runs are not this run's
+	}
 	v, o := p.Run(plan, rf.SchedSeed, rf.Tape, false, true)
 	if showLog && o != nil {
 		for _, l := range logTail(o, 1<<30) {
